@@ -159,7 +159,15 @@ func runC14(t *testing.T, sched simrt.Schedule, prog c14Prog) ([]Violation, RunS
 			}
 			simStore.Fault = nil
 			if r == simrt.RunLivelock {
-				return append(out, vio("C14", "livelock", "step budget exhausted in phase %d", pi))
+				var st []string
+				for _, c := range w.Clients {
+					last := ""
+					if c.lastSent != nil {
+						last = fmt.Sprintf(" last=%s answered=%v timedout=%v", c.lastSent.Id, c.lastSent.Answered, c.lastSent.TimedOut)
+					}
+					st = append(st, fmt.Sprintf("c%d %d/%d conn=%v stalled=%v%s", c.Idx, c.next, len(c.Ops), c.Connected, c.stall != nil, last))
+				}
+				return append(out, vio("C14", "livelock", "step budget exhausted in phase %d at t=%v (clients: %s)", pi, w.rt.Now(), strings.Join(st, "; ")))
 			}
 			if r == simrt.RunPanic || len(w.rt.Panics) > 0 {
 				return out
@@ -314,6 +322,19 @@ func runC14(t *testing.T, sched simrt.Schedule, prog c14Prog) ([]Violation, RunS
 					if cj, nj, ok := reqNo(out[j].Text); ok && cj == ci && nj > no {
 						out[j].Key = out[i].Key
 					}
+				}
+			}
+		}
+		// a {sub} that reaches the hub between stopTopicsForUser (topics of the account unloaded) and the removal of
+		// the account's rows from the store loads the topic again: the new instance attaches the session while the
+		// old one's termination unlinks it on the session's side, and the topic of a deleted owner stays loaded
+		for j := range out {
+			if out[j].Key != "topic-lists-session-not-vice-versa" && out[j].Key != "session-lists-topic-not-vice-versa" {
+				continue
+			}
+			for name, key := range killed {
+				if key == kAcc && name != "" && strings.Contains(out[j].Text, "topic "+name) {
+					out[j].Key = "topic-reloaded-during-account-deletion"
 				}
 			}
 		}
